@@ -32,9 +32,10 @@
     `cosetProbs4` (the list the C10 maximum-likelihood theorems are about), in both modes.
 
   What is NOT a theorem: that the real float / mpf contraction equals this exact value (explored numerically by the
-  harness); that the bra shared between the I/Z (X/Y) variants in `_coset_probabilities` may be shared (the variants
-  differ only in the last column: the model evaluates each variant with its own network; the harness compares the real
-  decoder's four values with the model values).
+  harness).  NOT IN THIS FILE, but proved in Props/C10/RotatedPlanarRmpsShared.lean
+  (`rotated_planar_rmps_shared_columns` / `_shared_rows`, `rotated_planar_rmps_coset_values_c` / `_r` / `_a`): that the
+  bra shared between the I/Z (X/Y) variants in `_coset_probabilities` may be shared (the variants differ only in the last
+  column; in this file each variant is evaluated with its own network).
 -/
 import QecVerif.Lemmas.RotatedPlanarRmpsFactor
 import QecVerif.Props.C10.Network
